@@ -197,7 +197,7 @@ def hypothesis_run(prop, tier, seed, examples, collector, raise_kind=None, shrin
     fails (so the search continues behind a failure).  raise_kind mode: the test fails on a
     failure of that kind so Hypothesis shrinks it; the last failing case is left in sink."""
     import hypothesis
-    from hypothesis import given, settings, strategies as st, HealthCheck, Phase
+    from hypothesis import given, settings, strategies as st, HealthCheck, Phase, Verbosity
     from .draw import Draw
 
     phases = [Phase.generate] + ([Phase.shrink] if shrink else [])
@@ -205,7 +205,7 @@ def hypothesis_run(prop, tier, seed, examples, collector, raise_kind=None, shrin
     @hypothesis.seed(seed)
     @settings(max_examples=examples, database=None, deadline=None,
               suppress_health_check=list(HealthCheck), phases=phases,
-              report_multiple_bugs=False, derandomize=False, print_blob=False)
+              report_multiple_bugs=False, derandomize=False, print_blob=False, verbosity=Verbosity.quiet)
     @given(st.data())
     def test(data):
         case = prop.gen(Draw(data), tier)
@@ -275,6 +275,48 @@ def load_findings(pid):
     with open(path) as fh:
         data = json.load(fh)
     return [f for f in data.get('findings', []) if f['property'] == pid]
+
+
+# ----------------------------------------------------------------------------------------
+# coverage-guided campaigns (atheris / libFuzzer on the Hypothesis choice sequence)
+# ----------------------------------------------------------------------------------------
+def fuzz_campaigns(pid, cfg, seed, known_features, col):
+    import subprocess
+    import shutil
+    try:
+        import atheris  # noqa
+    except Exception as e:
+        return dict(skipped='atheris not importable (%s); thorough tier ran Hypothesis shards only' % type(e).__name__)
+    work = os.path.join(env.VERIF, '.work', 'fuzz-%s-%d' % (pid, os.getpid()))
+    os.makedirs(work, exist_ok=True)
+    procs = []
+    n = cfg.get('campaigns', 8)
+    for i in range(n):
+        out = os.path.join(work, 'c%d.json' % i)
+        e = dict(os.environ)
+        e['PYTHONHASHSEED'] = '0'
+        # campaign 0 starts from an empty corpus, the others from the seeded byte strings
+        e['VERIF_FUZZ_SEED_CORPUS'] = '0' if i == 0 else '1'
+        cmd = [sys.executable, '-m', 'vlib.fuzz', pid, str(cfg.get('runs', 3000)), str(seed * 100 + i + 1), out] + list(known_features)
+        procs.append((out, subprocess.Popen(cmd, cwd=env.VERIF, env=e, stdout=subprocess.DEVNULL, stderr=subprocess.DEVNULL)))
+    execs = evals = 0
+    done = 0
+    for out, p in procs:
+        try:
+            p.wait(timeout=cfg.get('timeout', 3600))
+        except subprocess.TimeoutExpired:
+            p.kill()
+        if os.path.exists(out):
+            with open(out) as fh:
+                d = json.load(fh)
+            execs += d.get('execs', 0)
+            evals += d['evaluations']
+            col.merge(d)
+            done += 1
+    shutil.rmtree(work, ignore_errors=True)
+    return dict(engine='atheris/libFuzzer over Hypothesis fuzz_one_input', campaigns=n, campaigns_reporting=done,
+                executions=execs, oracle_evaluations=evals, runs_per_campaign=cfg.get('runs', 3000),
+                corpus='campaign 0 empty corpus, others 48 pinned random byte strings')
 
 
 # ----------------------------------------------------------------------------------------
@@ -373,6 +415,11 @@ def run(pid, tier):
                 else:
                     errors.append(payload)
 
+    # 3b. coverage-guided campaigns (thorough tier of the scanner properties) ----------------
+    fuzz_info = {}
+    if tier == 'thorough' and getattr(prop, 'FUZZ', None) and not errors:
+        fuzz_info = fuzz_campaigns(pid, prop.FUZZ, seed, known_features, col)
+
     # 4. property specific extra sub-runs ---------------------------------------------------
     extra_info = {}
     if hasattr(prop, 'extra') and not errors:
@@ -422,6 +469,8 @@ def run(pid, tier):
         notes=dict(col.notes),
     )
     coverage.update(extra_info)
+    if fuzz_info:
+        coverage['coverage_guided'] = fuzz_info
     evidence = dict(property_id=pid, tier=tier, seed=seed, level=LEVEL, coverage=coverage,
                     assumptions=list(getattr(prop, 'ASSUMPTIONS', [])),
                     wall_s=round(time.time() - t0, 2), violations=len(violations))
